@@ -1124,6 +1124,32 @@ class SymMath:
             return 2 * uf_app('cdf', z * math.sqrt(2.0), ax_cdf) - 1
         return math.erf(z)
 
+    # plausible stdlib helpers a change to the library might reach for; exact real-number semantics
+    def isclose(self, a, b, rel_tol=1e-09, abs_tol=0.0):
+        if not (isinstance(a, Sym) or isinstance(b, Sym)):
+            return math.isclose(a, b, rel_tol=rel_tol, abs_tol=abs_tol)
+        ta, tb = lift(a), lift(b)
+        d = z3.If(ta - tb >= 0, ta - tb, tb - ta)
+        aa = z3.If(ta >= 0, ta, -ta)
+        ab = z3.If(tb >= 0, tb, -tb)
+        m = z3.If(aa >= ab, aa, ab)
+        cond = z3.Or(ta == tb, d <= rv(rel_tol) * m, d <= rv(abs_tol))
+        sh = [(math.isclose(x, y, rel_tol=rel_tol, abs_tol=abs_tol), abs(x - y) > 1e-6 * max(1.0, abs(x)) or x == y)
+              for x, y in zip(shadow_of(a), shadow_of(b))]
+        return ENG.branch(cond, sh)
+
+    def fabs(self, x):
+        return abs(x) if isinstance(x, Sym) else math.fabs(x)
+
+    def floor(self, x):
+        return sym_int(x, 'floor') if isinstance(x, Sym) else math.floor(x)
+
+    def ceil(self, x):
+        return sym_int(x, 'ceil') if isinstance(x, Sym) else math.ceil(x)
+
+    def trunc(self, x):
+        return sym_int(x, 'trunc') if isinstance(x, Sym) else math.trunc(x)
+
     def exp(self, x):
         if isinstance(x, Sym):
             if ENG.guard(x.t > rv(709.78), [(v > 709.78, v == v) for v in x.s], 'OverflowError(exp)'):
@@ -1164,6 +1190,71 @@ def sym_min(*a, **kw):
     return Sym(r, s=sh, f=ff)
 
 
+def sym_int(x, how='trunc'):
+    """int() / floor / ceil / trunc of a symbolic number: a fresh integer-valued term with the exact relation"""
+    if not isinstance(x, Sym):
+        return builtins.int(x) if how == 'trunc' else {'floor': math.floor, 'ceil': math.ceil}[how](x)
+    if x.kind in (builtins.int, builtins.bool) and how in ('trunc', 'floor', 'ceil'):
+        return Sym(x.t, builtins.int, s=x.s, f=x.f)
+    r = ENG.newvar('int')
+    ENG.add_axiom(z3.IsInt(r), 0)
+    if how == 'floor':
+        ENG.add_axiom(z3.And(r <= x.t, x.t < r + 1), 0)
+        f = math.floor
+    elif how == 'ceil':
+        ENG.add_axiom(z3.And(r - 1 < x.t, x.t <= r), 0)
+        f = math.ceil
+    else:
+        ENG.add_axiom(z3.If(x.t >= 0, z3.And(r <= x.t, x.t < r + 1), z3.And(r - 1 < x.t, x.t <= r)), 0)
+        f = math.trunc
+    return Sym(r, builtins.int, s=_sf(lambda v: float(f(v)), x.s))
+
+
+TWO53 = 2 ** 53
+
+
+def sym_to_float(x):
+    """float() of a symbolic number.  Exact for float kinds and for integers up to 2^53; above that the result
+    is only known to be within half an ulp (relative 2^-53) of the integer - an over-approximation of rounding."""
+    if x.kind is builtins.float:
+        return Sym(x.t, builtins.float, s=x.s, f=x.f)
+    big = ENG.branch(z3.Or(x.t > TWO53, x.t < -TWO53), [(abs(v) > TWO53, True) for v in x.s])
+    if not big:
+        return Sym(x.t, builtins.float, s=x.s, f=x.f)
+    r = ENG.newvar('rounded')
+    ax = z3.If(x.t >= 0, x.t, -x.t)
+    ENG.add_axiom(z3.And(r - x.t <= ax / TWO53, x.t - r <= ax / TWO53), 0)
+    return Sym(r, builtins.float, s=_sf(lambda v: float(v), x.s))
+
+
+class _IntMeta(type):
+    def __instancecheck__(cls, x):
+        return isinstance(x, builtins.int)
+
+    def __subclasscheck__(cls, c):
+        return issubclass(c, builtins.int)
+
+    def __call__(cls, *a, **kw):
+        if len(a) == 1 and not kw and isinstance(a[0], Sym):
+            return sym_int(a[0], 'trunc')
+        return builtins.int(*a, **kw)
+
+
+class sym_int_type(metaclass=_IntMeta):
+    pass
+
+
+def sym_round(x, nd=None):
+    if isinstance(x, Sym) and nd is None:
+        r = ENG.newvar('int')
+        ENG.add_axiom(z3.IsInt(r), 0)
+        ENG.add_axiom(z3.And(2 * (r - x.t) <= 1, 2 * (x.t - r) <= 1), 0)   # ties: either neighbour (over-approximation of banker's rounding)
+        return Sym(r, builtins.int, s=_sf(lambda v: float(round(v)), x.s))
+    if isinstance(x, Sym):
+        raise TypeError('round(x, ndigits) of a symbolic number is not modelled')
+    return builtins.round(x) if nd is None else builtins.round(x, nd)
+
+
 class _FloatMeta(type):
     def __instancecheck__(cls, x):
         return isinstance(x, builtins.float)
@@ -1174,7 +1265,9 @@ class _FloatMeta(type):
     def __call__(cls, x=0.0):
         if not isinstance(x, Sym) and type(x) is not Sym:
             return builtins.float(x)
-        return Sym(x.t, builtins.float, s=x.s, f=x.f)
+        if x.kind is builtins.float or ENG.opts.get('float_exact', True) and not ENG.opts.get('int_rounding'):
+            return Sym(x.t, builtins.float, s=x.s, f=x.f)
+        return sym_to_float(x)
 
 
 class sym_float(metaclass=_FloatMeta):
@@ -1215,12 +1308,18 @@ def install():
     C._normal = StubNormal()
     if hasattr(C, 'math'):
         C.math = SymMath()
-    for name in MODEL_MODULES:
-        m = importlib.import_module('openskill.models.weng_lin.' + name)
+    mods = [importlib.import_module('openskill.models.weng_lin.' + name) for name in MODEL_MODULES]
+    for m in mods:
         m.math = SymMath()
+    # numeric builtins as module globals (module globals shadow builtins) in every library module
+    for m in mods + [C, importlib.import_module('openskill.models.common')]:
         m.max = sym_max
         m.min = sym_min
         m.float = sym_float
+        m.int = sym_int_type
+        m.round = sym_round
+        if not hasattr(m, 'math') or isinstance(getattr(m, 'math'), SymMath):
+            m.math = SymMath()
 
 
 # --------------------------------------------------------------------------
